@@ -93,7 +93,9 @@ func c19Equal(a, b *rtp.VLA) string {
 		if x.RTPStreamID != y.RTPStreamID || x.SpatialID != y.SpatialID || fmt.Sprint(x.TargetBitrates) != fmt.Sprint(y.TargetBitrates) {
 			return fmt.Sprintf("layer %d: %+v vs %+v", i, x, y)
 		}
-		if a.HasResolutionAndFramerate && (x.Width != y.Width || x.Height != y.Height || x.Framerate != y.Framerate) {
+		// without resolution records the three fields are zero on both sides (the builder leaves
+		// them zero; a decoder must not leave what an earlier decode put there)
+		if x.Width != y.Width || x.Height != y.Height || x.Framerate != y.Framerate {
 			return fmt.Sprintf("layer %d resolution: %+v vs %+v", i, x, y)
 		}
 	}
